@@ -68,6 +68,9 @@ META["rule"] += (
 META["rule"] += (
     " " + "Added after the third round: surrogates of another shape than the data for the surrogate test functions (incl. the library's own shorter twin surrogates).")
 
+META["rule"] += (
+    " " + "Added after the fifth round: 17th family 'resistive_large' (networks of 130 .. 220, thorough 420 nodes); the public Rainfall helpers with the caller's own arrays of fewer / more series than the network has nodes.")
+
 _state = {"off": 0, "path": None}
 
 
